@@ -1,7 +1,7 @@
 (* C13 — quasi-random samplers emit the true Halton and R sequences, without gaps.
    Property theorems only; each is closed by `exact` of a lemma proved in Proofs/HaltonP.v / Proofs/RSeqP.v. *)
 From Coq Require Import List ZArith QArith Reals Znumtheory Sorted.
-From BlackIt Require Import Model.Halton Model.RSeq Proofs.HaltonP Proofs.RSeqP.
+From BlackIt Require Import Model.Halton Model.RSeq Proofs.HaltonP Proofs.RSeqP Model.SeqRej Proofs.SeqRejP.
 Import ListNotations.
 Open Scope Z_scope.
 
@@ -194,4 +194,68 @@ Example C13_ex_phi :
 Proof. vm_compute. auto. Qed.
 Example C13_ex_rseq : map Qred (rpoint (1 # 3) [1 # 2; 3 # 4] 5) = [5 # 6; 1 # 12]%Q
   /\ fst (rrun (1 # 3) [1 # 2] 7 [2; 1]%nat) = rbatch (1 # 3) [1 # 2] 7 3.
+Proof. vm_compute. auto. Qed.
+
+(* ---------------------------------------------------------------- round 4: a rejected request between two batches *)
+(* hsample_t (Model/SeqRej.v) is _halton as a TOTAL step: (None, state after) when the call raises.  It is the partial
+   step of Model/Halton.v ... *)
+Theorem C13_total_step_agrees : forall st k dims,
+  hsample st k dims = match hsample_t st k dims with (Some pts, st') => Some (pts, st') | (None, _) => None end.
+Proof. exact hsample_t_agrees. Qed.
+Print Assumptions C13_total_step_agrees.
+(* ... a request that raises never moves the cursor (any cache, any cursor, any arguments) ... *)
+Theorem C13_rejected_request_keeps_cursor : forall st k dims,
+  fst (hsample_t st k dims) = None -> h_cursor (snd (hsample_t st k dims)) = h_cursor st.
+Proof. exact hsample_t_rejected_cursor. Qed.
+Print Assumptions C13_rejected_request_keeps_cursor.
+(* ... and on an object in a reachable state a request raises exactly when its size is <= 0 or its dimension < 1 *)
+Theorem C13_rejected_iff : forall m s k dims, (m <= 40)%nat -> 0 <= s -> dims <= 40 ->
+  (fst (hsample_t {| h_cursor := s; h_pc := pc_after m |} k dims) = None <-> k <= 0 \/ dims < 1).
+Proof. exact hsample_t_rejected_iff. Qed.
+Print Assumptions C13_rejected_iff.
+(* any sequence of requests, rejected ones anywhere in it: a served request returns the rows cursor+1 .. cursor+k in
+   the first dims primes, a rejected one returns nothing, and the cursor counts the served requests only *)
+Theorem C13_sampler_run_with_rejections_spec : forall ops m s, (m <= 40)%nat -> 0 <= s ->
+  Forall (fun op => snd op <= 40) ops ->
+  exists m', (m' <= 40)%nat /\
+    hrun_t {| h_cursor := s; h_pc := pc_after m |} ops =
+    (spec_outs_t s ops, {| h_cursor := s + zsum (map fst (filter served ops)); h_pc := pc_after m' |}).
+Proof. exact hrun_t_spec. Qed.
+Print Assumptions C13_sampler_run_with_rejections_spec.
+(* the rows delivered are those of the run from which the rejected requests have been removed (C13_sampler_run_spec) *)
+Theorem C13_rejections_transparent : forall ops s, somes (spec_outs_t s ops) = spec_outs s (filter served ops).
+Proof. exact somes_spec_outs_t. Qed.
+Print Assumptions C13_rejections_transparent.
+(* R-sequence: _r_sequence raises exactly for a dimension < 1 (compute_phi's check), and then the cursor stays *)
+Theorem C13_rseq_rejected_iff : forall off alphas s k dims,
+  fst (rsample_t off alphas s k dims) = None <-> dims < 1.
+Proof. exact rsample_t_rejected_iff. Qed.
+Print Assumptions C13_rseq_rejected_iff.
+Theorem C13_rseq_rejected_request_keeps_cursor : forall off alphas s k dims,
+  fst (rsample_t off alphas s k dims) = None -> snd (rsample_t off alphas s k dims) = s.
+Proof. exact rsample_t_rejected_cursor. Qed.
+Print Assumptions C13_rseq_rejected_request_keeps_cursor.
+Theorem C13_rseq_run_with_rejections_spec : forall off alphas ops s,
+  rrun_t off alphas s ops =
+  (rspec_outs_t off alphas s ops, s + Z.of_nat (nsum (map fst (filter rserved ops)))).
+Proof. exact rrun_t_spec. Qed.
+Print Assumptions C13_rseq_run_with_rejections_spec.
+(* requests of one dimension d with rejected ones (and requests for 0 points) in between: ONE batch from the first cursor *)
+Theorem C13_rseq_rejections_one_batch : forall off alphas d ops, 1 <= d ->
+  Forall (fun op => snd op = d \/ snd op < 1) ops ->
+  forall s, concat (somes (rspec_outs_t off alphas s ops)) =
+            rbatch off (alphas d) s (nsum (map fst (filter rserved ops))).
+Proof. exact rrun_t_one_batch. Qed.
+Print Assumptions C13_rseq_rejections_one_batch.
+(* 2 points, a request for 0 points (raises), a request in dimension 0 (raises), 2 points: the 4 points of one batch *)
+Example C13_ex_rejected :
+  match hrun_t {| h_cursor := 20; h_pc := pcache_init |} [(2, 3); (0, 3); (2, 0); (2, 3)],
+        hrun {| h_cursor := 20; h_pc := pcache_init |} [(4, 3)] with
+  | ([Some a; None; None; Some b], st), Some ([c], _) => a ++ b = c /\ h_cursor st = 24
+  | _, _ => False
+  end.
+Proof. vm_compute. auto. Qed.
+Example C13_ex_rseq_rejected :
+  rrun_t (1 # 3) (fun _ => [1 # 2]) 7 [(2%nat, 1); (3%nat, 0); (0%nat, 1); (1%nat, 1)]
+  = ([Some (rbatch (1 # 3) [1 # 2] 7 2); None; Some []; Some (rbatch (1 # 3) [1 # 2] 9 1)], 10).
 Proof. vm_compute. auto. Qed.
